@@ -1,6 +1,7 @@
 package e2e
 
 import (
+	"errors"
 	"fmt"
 	"net"
 	"sync/atomic"
@@ -37,7 +38,17 @@ func RunGhost(c GhostCase) error {
 	return err
 }
 
+var errNotJudged = errors.New("not judged")
+
 func runGhost(c GhostCase) (*ghostStats, error) {
+	st, err := runGhostInner(c)
+	if err == errNotJudged {
+		return st, nil
+	}
+	return st, err
+}
+
+func runGhostInner(c GhostCase) (*ghostStats, error) {
 	st := &ghostStats{}
 	desc := SimpleDesc([]int{1})
 	backPT := uint8(8)
@@ -83,6 +94,12 @@ func runGhost(c GhostCase) (*ghostStats, error) {
 	must := func(req *base.Request) (*base.Response, error) {
 		res, cerr, err := r.do(req)
 		if cerr != nil || err != nil {
+			if stall.take() > 150*time.Millisecond {
+				// the process was not scheduled for a while and the server's (deliberately short) read timeout closed the
+				// connection during the set-up steps, which are not what this check is about
+				st.Inconcl = true
+				return nil, errNotJudged
+			}
 			return nil, fmt.Errorf("harness: %s failed: %v %v", req.Method, cerr, err)
 		}
 		if res.StatusCode != 200 {
